@@ -198,7 +198,8 @@ stringify(const string &source) {
   for (it = source.begin(); it != source.end(); ++it) {
     char c = *it;
 
-    if (c == no_expand_mark && (state & S_quoted) == 0) {
+    if ((c == no_expand_mark || c == token_separator) &&
+        (state & S_quoted) == 0) {
       // Not part of the spelling.
       continue;
     }
@@ -370,7 +371,7 @@ would_paste(const string &left, size_t left_end,
 void CPPManifest::
 extract_args(vector_string &args, const string &expr, size_t &p) const {
   // Skip whitespace till paren.
-  while (p < expr.size() && isspace(expr[p])) {
+  while (p < expr.size() && is_blank(expr[p])) {
     p++;
   }
   if (p >= expr.size() || expr[p] != '(') {
@@ -890,9 +891,12 @@ r_expand(const Expansion &expansion, const vector_string &args,
         result.append(piece, piece[0] == no_expand_mark ? 1 : 0, string::npos);
         return;
       }
-      if (!result.empty() &&
-          (space || would_paste(result, result.size(), piece, 0))) {
-        result += ' ';
+      if (!result.empty()) {
+        if (space) {
+          result += ' ';
+        } else if (would_paste(result, result.size(), piece, 0)) {
+          result += token_separator;
+        }
       }
       result += piece;
     };
